@@ -377,7 +377,10 @@ Proof.
 Qed.
 
 Lemma fresh_world_Tr now ext key b l k c script : Tr (fresh_world now ext key b l k c script).
-Proof. constructor; cbn; try reflexivity; exact I. Qed.
+Proof.
+  assert (H0 : Tr (fresh_world0 now ext key b l k c script)) by (constructor; cbn; try reflexivity; exact I).
+  unfold fresh_world. destruct ext as [[t e]|]; [|exact H0]. destruct (t <=? now); [apply Tr_fire_ext|]; exact H0.
+Qed.
 
 Lemma Tr_execute fuel stack w : Tr w -> Tr (snd (execute fuel stack w)).
 Proof.
